@@ -517,6 +517,11 @@ func crlFaultHandler(kind string, issuer *Cert) rtHandler {
 		}
 	case "302":
 		return func(*http.Request) (*http.Response, error) { return httpBody(302, nil) }
+	case "500-valid-crl", "404-valid-crl", "201-valid-crl":
+		// a genuine, current CRL that does not list the certificate, delivered with a status other than 200
+		der := buildCRL(crlSpec{Number: 5, Next: "+1h", Signer: "issuer"}, issuer, big.NewInt(1))
+		code := map[string]int{"500-valid-crl": 500, "404-valid-crl": 404, "201-valid-crl": 201}[kind]
+		return func(*http.Request) (*http.Response, error) { return httpBody(code, der) }
 	case "delta-nonhttp", "delta-unreachable", "delta-ext-malformed":
 		// a genuine, current base CRL that does not list the certificate but advertises a delta CRL which cannot
 		// be obtained: only locations with a scheme other than http / a location that answers 404 / an extension
